@@ -46,6 +46,7 @@ type Executor struct {
 	loopEnv       func(st *State) *CEnv
 	GlobalFacts   []*Term
 	LoopErrors    []string
+	GhostHook     func(ex *Executor, fn *ssa.Function, args []Value, st *State, from int)
 	sentinels     []*Term
 	sentinelSeen  map[string]bool
 	TypeHolds     func(t types.Type) bool
@@ -927,6 +928,10 @@ func defaultTypeHolds(t types.Type) bool {
 		return false
 	}
 	name := n.Obj().Name()
+	switch name {
+	case "UserOneTime", "ArbitraryUser", "RecoverableUserWithSecondaryEmails", "RememberValuer", "ArbitraryValuer":
+		return false // optional capabilities: both outcomes are explored
+	}
 	return isUserIface(t) || strings.HasSuffix(name, "Valuer") || strings.HasSuffix(name, "ServerStorer") || name == "ClientState" || name == "User"
 }
 
